@@ -164,7 +164,7 @@ def ens_validate_frame(I, env, res):
 
 
 def targets(tier):
-    return find_targets() + [
+    return find_targets() + removed_targets() + [
         Target("fresh.validate_meta", "mypy.build:validate_meta", setup_validate,
                ensures=[("accepted-only-if-recorded-facts-hold", ens_validate), ("record-restamped-only-on-equal-hash", ens_validate_frame)],
                raises=(AssertionError,), overrides=dict(OVERRIDES, **{"contracts.fresh:FakeFsCache.hash_digest": hash_contract}), field_types=FT,
@@ -303,3 +303,67 @@ def find_targets():
                loops={"for key in sorted(set(cached_options) | set(current_options))": LoopSpec(inv=lambda I, env: z3.BoolVal(True), name="trace-differing-options")}, forget_order_facts=True,
                note="file loading, CacheMeta(.Ex).read, options_snapshot and the plugin enter through contracts; option snapshots are maps name -> abstract JSON value"),
     ]
+
+
+# ------------------------------------------------------------------ exist_removed_submodules
+
+
+def find_module_simple_contract(I, args, kwargs):
+    """find_module_simple(id, manager): a path, or None when the module cannot be found now"""
+    r = I.make(TOpt(TStr()), "found_path")
+    I.ctx.ghost["found"] = (args[0], r)
+    return r
+
+
+def setup_removed_iter(I):
+    dep = I.make(TStr(), "dep")
+    deps_set = I.make(TSet(TStr()), "dependencies_set")
+    manager = I.make(TObj(B.BuildManager), "manager")
+    src = I.make(TObj(FakeSourceSet), "source_set")
+    manager.fields["source_set"] = src
+    return {"args": [], "locals": {"dep": dep, "dependencies_set": deps_set, "manager": manager, "dependencies": I.make(TSeq(TStr()), "dependencies")},
+            "dep": dep, "deps": deps_set, "src": src}
+
+
+class FakeSourceSet:
+    source_modules: set
+
+
+def ens_removed_iter(I, env, res):
+    """one dependency `p.q.m`: the record is declared stale (True) exactly when it is a submodule that
+    is not a command-line source, its DIRECT parent package `p.q` is also a dependency, and the
+    module can no longer be found"""
+    dep = env["dep"].t
+    dot = z3.StringVal(".")
+    is_src = z3.Select(I.getattr(env["src"], "source_modules").t, dep)
+    found = I.ctx.ghost.get("found")
+    returned_true = isinstance(res, SBool) and z3.is_true(simp(res.t))
+    # the direct parent is the prefix before the LAST dot: LAST is the specification function
+    # `index of the last occurrence` (defined by its axiom, instantiated here for dep)
+    LAST = z3.Function("py_rfind", StrS, StrS, IntS)
+    r = LAST(dep, dot)
+    last_axiom = z3.If(z3.Contains(dep, dot),
+                       z3.And(r >= 0, r + 1 <= z3.Length(dep), z3.SubString(dep, r, 1) == dot, z3.Not(z3.Contains(z3.SubString(dep, r + 1, z3.Length(dep) - r - 1), dot))),
+                       r == -1)
+    parent_is_dep = z3.Select(env["deps"].t, z3.SubString(dep, 0, r))
+    cond_static = z3.And(z3.Contains(dep, dot), z3.Not(is_src), parent_is_dep)
+    if returned_true:
+        if found is None:
+            return z3.BoolVal(False)
+        return z3.Implies(last_axiom, z3.And(cond_static, found[0].t == dep, isnone(found[1])))
+    # fell through: not (all conditions and missing)
+    if found is not None:
+        # the finder is only asked about qualifying submodules, and this one was found
+        return z3.Implies(last_axiom, z3.And(cond_static, z3.Not(isnone(found[1]))))
+    return z3.Implies(last_axiom, z3.Not(cond_static))
+
+
+def removed_targets():
+    ov = dict(OVERRIDES)
+    ov["mypy.build:find_module_simple"] = find_module_simple_contract
+    ft = dict(FT)
+    ft[("FakeSourceSet", "source_modules")] = TSet(TStr())
+    ft[("BuildManager", "source_set")] = TObj(FakeSourceSet)
+    return [Target("fresh.exist_removed_submodules.iteration", "mypy.build:exist_removed_submodules", setup_removed_iter, loop_body=("for dep in dependencies", None),
+                   ensures=[("stale-iff-submodule-of-a-dependency-went-missing", ens_removed_iter)], raises=(), overrides=ov, field_types=ft,
+                   note="one generic iteration; the module finder is an arbitrary function")]
